@@ -103,6 +103,12 @@ func (dpq *DelayedPriorityQueue) Enqueue(
 		dpq.mutex.Lock()
 		defer dpq.mutex.Unlock()
 		dpq.requestCounts[req.priority]--
+		if req.isProcessed {
+			// granted between the TTL timer firing and taking the lock
+			verifhook.Event("dpq.left", req.ID, "granted")
+			return true, nil
+		}
+		req.isProcessed = true
 		verifhook.Event("dpq.left", req.ID, "ttl")
 		return false, nil
 	}
@@ -175,18 +181,21 @@ func (dpq *DelayedPriorityQueue) processQueueItems() {
 		dpq.cl.Logger.Trace().
 			Str("requestID", req.ID).
 			Msgf("Attempt to process queued request")
-		select {
-		case req.doneCh <- struct{}{}:
-			close(req.doneCh)
-			dpq.currentWindowCounter++
-			verifhook.Event("dpq.granted", req.ID)
-			dpq.cl.Logger.Trace().Str("requestID", req.ID).
-				Msgf("notified successful request processing to req.doneCh")
-		default:
+		// The hand-off must not depend on the waiter already listening on
+		// doneCh: a request is either granted here or marked expired by its
+		// waiter, both under dpq.mutex.
+		if req.isProcessed {
 			verifhook.Event("dpq.missed", req.ID)
 			dpq.cl.Logger.Trace().Str("requestID", req.ID).
-				Msgf("req.doneCh already closed")
+				Msgf("request already expired, skipping")
+			continue
 		}
+		req.isProcessed = true
+		close(req.doneCh)
+		dpq.currentWindowCounter++
+		verifhook.Event("dpq.granted", req.ID)
+		dpq.cl.Logger.Trace().Str("requestID", req.ID).
+			Msgf("notified successful request processing to req.doneCh")
 		dpq.cl.Logger.Trace().Msgf("request %s processed in queue", req.ID)
 	}
 }
